@@ -141,7 +141,7 @@ theorem rt_named (F : FragmentRT env w ds) (n : Nat) (hg : RT env w ds n)
     decode env w (n + 1) false (.ref q) (encode env w (n + 1) false (.ref q) v) = some v := by
   have hfind : env.find? q = some d := by rw [← hq]; exact F.found d hd
   have hok := F.ok d hd
-  simp only [declOk, hb, Bool.and_eq_true] at hok
+  simp only [declOk, hb, F.nameds, List.contains_nil, Bool.false_eq_true, if_false, Bool.and_eq_true] at hok
   obtain ⟨⟨hsu, hnu⟩, _⟩ := hok
   have henc : encode env w (n + 1) false (.ref q) v = encode env w n false u v := by
     simp [encode, hfind, hb, F.nameds]
